@@ -65,6 +65,8 @@ def value_to_term(v):
             return C(v)
         if k == 'fn':
             return ('fnitem', v[1])
+        if k == 'bytes':
+            return C(v)
         return ('unk', 'const', v)
     return C(v)
 
@@ -119,6 +121,7 @@ class Outcome:
         self.heap = state.heap
         self.notes = state.notes
         self.where = where
+        self.locals = None
 
     def calls(self, name=None, prefix=None):
         out = []
@@ -195,12 +198,17 @@ class Engine:
         # loop handling: first arrival at a loop head havocs the loop-assigned locals, second arrival ends
         if bb in cfg.loops:
             if bb in st.entered[fid]:
-                return [Outcome('backedge', None, st, where=(fn.name, bb))]
+                o = Outcome('backedge', None, st, where=(fn.name, bb))
+                o.locals = dict(st.frames[fid])
+                return [o]
             st.entered[fid].add(bb)
             assigned = loop_assigned_locals(fn, cfg.loops[bb])
+            before = {}
             for l in assigned:
+                if l in st.frames[fid]:
+                    before[l] = st.frames[fid][l]
                 st.frames[fid][l] = ('lv', bb, l)
-            st.events.append(('loop_head', fn.name, bb))
+            st.events.append(('loop_head', fn.name, bb, before))
             # forget visited marks inside the loop body so the iteration can be walked
             st.visited[fid] -= cfg.loops[bb]
         elif bb in st.visited[fid]:
@@ -387,6 +395,8 @@ class Engine:
                 ptr = self._read_lv(st, lv)
                 if ptr[0] == 'ref':
                     lv = ptr[1]
+                elif is_const(ptr) and isinstance(ptr[1], str):
+                    lv = ('K', ptr)        # a &str constant stands for its own pointee
                 else:
                     lv = ('der', ptr)
                 dc = None
@@ -668,6 +678,10 @@ def loop_assigned_locals(fn, body):
                 out.add(s['place']['local'])
             elif s['k'] == 'assign':
                 out.add(s['place']['local']) if s['place']['proj'][0] != 'deref' else None
+            if s['k'] == 'assign' and s['rv']['k'] in ('ref', 'rawptr') and s['rv'].get('mut'):
+                pl = s['rv']['place']
+                if not pl['proj'] or pl['proj'][0] != 'deref':
+                    out.add(pl['local'])      # mutably borrowed inside the loop: may be updated through the borrow
         t = blk['term']
         if t['k'] == 'call' and not t['dest']['proj']:
             out.add(t['dest']['local'])
@@ -1148,6 +1162,105 @@ def m_log_le(eng, st, args, info):
     return None
 
 
+def concat(*parts):
+    flat = []
+    for p in parts:
+        if p[0] == 'concat':
+            flat.extend(p[1])
+        else:
+            flat.append(p)
+    merged = []
+    for p in flat:
+        if is_const(p) and isinstance(p[1], str):
+            if p[1] == '':
+                continue
+            if merged and is_const(merged[-1]) and isinstance(merged[-1][1], str):
+                merged[-1] = C(merged[-1][1] + p[1])
+                continue
+        merged.append(p)
+    if not merged:
+        return C('')
+    if len(merged) == 1:
+        return merged[0]
+    return ('concat', tuple(merged))
+
+
+def disp(x):
+    while x[0] == 'ref' and x[1][0] == 'K':
+        x = x[1][1]
+    if is_const(x) and isinstance(x[1], str):
+        return x
+    if is_const(x) and isinstance(x[1], tuple) and x[1][0] == 'char':
+        return C(x[1][1])
+    if x[0] in ('concat', 'disp'):
+        return x
+    return ('disp', x)
+
+
+def m_new_display(eng, st, args, info):
+    return [(st, disp(_deref_arg(eng, st, args[0])))]
+
+
+def m_new_debug(eng, st, args, info):
+    return [(st, ('dbg', _deref_arg(eng, st, args[0])))]
+
+
+def m_arguments_new(eng, st, args, info):
+    from .fmt import decode_template, TemplateError
+    tpl = _deref_arg(eng, st, args[0])
+    arr = _deref_arg(eng, st, args[1])
+    if not (is_const(tpl) and isinstance(tpl[1], tuple) and tpl[1][0] == 'bytes') or arr[0] != 'agg':
+        return [(st, ('unk', 'fmt-template'))]
+    try:
+        pieces = decode_template(tpl[1][1])
+    except TemplateError:
+        return [(st, ('unk', 'fmt-template'))]
+    items = [x for _, x in arr[4]]
+    parts = []
+    for p in pieces:
+        if p[0] == 'lit':
+            parts.append(C(p[1]))
+        else:
+            parts.append(items[p[1]] if p[1] < len(items) else ('unk', 'fmt-arg'))
+    return [(st, ('fmtargs', concat(*parts)))]
+
+
+def m_arguments_from_str(eng, st, args, info):
+    return [(st, ('fmtargs', args[0]))]
+
+
+def m_format(eng, st, args, info):
+    a = args[0]
+    if a[0] == 'fmtargs':
+        return [(st, a[1])]
+    return None
+
+
+def m_to_string(eng, st, args, info):
+    return [(st, disp(_deref_arg(eng, st, args[0])))]
+
+
+def m_string_from(eng, st, args, info):
+    return [(st, args[0])]
+
+
+def m_string_new(eng, st, args, info):
+    return [(st, C(''))]
+
+
+def m_push_str(eng, st, args, info):
+    tgt = args[0]
+    if tgt[0] != 'ref':
+        return None
+    cur = eng._read_lv(st, tgt[1])
+    eng._write_lv(st, tgt[1], concat(cur, args[1]), info['fn'], event=False)
+    return [(st, UNIT)]
+
+
+def m_deref_identity(eng, st, args, info):
+    return [(st, args[0])]
+
+
 DEFAULT_FOLD_ONLY = {
     'chess::board::color::Color::opposite',
     'chess::board::color::Color::maximize_score',
@@ -1156,6 +1269,16 @@ DEFAULT_FOLD_ONLY = {
 
 DEFAULT_MODELS = {
     'std::cmp::PartialOrd::le': m_log_le,
+    "core::fmt::rt::Argument::<'_>::new_display": m_new_display,
+    "core::fmt::rt::Argument::<'_>::new_debug": m_new_debug,
+    "std::fmt::Arguments::<'a>::new": m_arguments_new,
+    "std::fmt::Arguments::<'a>::from_str": m_arguments_from_str,
+    'std::fmt::format': m_format,
+    '<T as std::string::ToString>::to_string': m_to_string,
+    '<std::string::String as std::convert::From<&str>>::from': m_string_from,
+    'std::string::String::new': m_string_new,
+    'std::string::String::push_str': m_push_str,
+    '<std::string::String as std::ops::Deref>::deref': m_deref_identity,
     'std::hint::must_use': m_identity,
     'std::option::Option::<T>::is_some': m_is_variant(1),
     'std::option::Option::<T>::is_none': m_is_variant(0),
@@ -1209,9 +1332,7 @@ READONLY_FNS = {
 }
 
 PURE_FNS = {
-    '<std::string::String as std::ops::Deref>::deref',
     '<std::sync::Arc<T, A> as std::ops::Deref>::deref',
-    '<std::string::String as std::convert::From<&str>>::from',
     'core::str::traits::<impl std::cmp::PartialEq for str>::eq',
 }
 PURE_PATTERNS = []
@@ -1285,6 +1406,10 @@ def show(t, depth=0):
         return '%s(%s)' % (name, ', '.join(show(x, d) for _, x in t[4]))
     if k == 'named':
         return t[1].split('::')[-1]
+    if k == 'concat':
+        return ' ++ '.join(show(x, d) for x in t[1])
+    if k == 'disp':
+        return '{%s}' % show(t[1], d)
     if k == 'lv':
         return 'loopvar(bb%d,_%d)' % (t[1], t[2])
     if k == 'hv':
